@@ -645,7 +645,7 @@ const c07RecallRule = "GENERATED cases (rapid): N in {200..3000} vectors derived
 	"(ties at the 10th distance count as hits) with efSearch=0 and efSearch=100, and the self-retrieval rate (query = stored vector => rank 1 is that vector or one at least as close). " +
 	"ORACLE: every checkpoint with >= 50 live vectors must reach the floors of its class, measured on the unchanged tree (/repo c682405, see the header of c07_floors_test.go): anchors (homogeneous, 320 seeds each): min(mean - 10 sd, min - 3 sd); " +
 	"generated classes (M / efConstruction / data kind / intrinsic difficulty / int8 / share of one-by-one inserts; heterogeneous and heavy-tailed): min(mean - 10 sd, observed min - 0.40) with sd >= 0.03; " +
-	"the mean z-score of all checkpoints of a run must be >= -10 sd of the mean. Classes seen in < 15 cases, the zero-vector data kind (a clique of > 2*M identical vectors) and fast-import graphs restored from a snapshot " +
+	"the mean z-score of all checkpoints of a run must be >= -10 sd of the mean. Classes seen in < 15 cases, the zero-vector data kind and 2-3 dimensional int8 indexes (cliques of > 2*M identical vectors / collapsed codes) and fast-import graphs restored from a snapshot " +
 	"(the needs-refine compensation is not persisted) are observed only. NON-TRIVIAL = N >= 500."
 
 func TestVerif_C07_recall(t *testing.T) {
